@@ -232,6 +232,7 @@ def destAngle : Bytes → Nat → Option Nat
       | d :: rest' => if isPunct d then destAngle rest' (i + 2) else destAngle (d :: rest') (i + 1)
       | [] => none
     else if c == 62 then some i
+    else if c == 60 then none          -- link.go:346 (repair 5e850d1): an unescaped `<` can not be part of a `<…>` destination
     else destAngle rest (i + 1)
 termination_by l => l.length
 
@@ -249,7 +250,22 @@ def destPlain : Bytes → Nat → Int → Nat
     else destPlain rest (i + 1) opened
 termination_by l => l.length
 
-/-- parseLinkDestination (link.go:333-372) -/
+/-- the value of `opened` when the scan of `destPlain` stops (the same loop, link.go:353-371; kept apart from the index so that
+    the lemmas about the index stay as they are) -/
+def destOpened : Bytes → Int → Int
+  | [], opened => opened
+  | c :: rest, opened =>
+    if c == 92 then
+      match rest with
+      | d :: rest' => if isPunct d then destOpened rest' opened else destOpened (d :: rest') opened
+      | [] => opened
+    else if c == 40 then destOpened rest (opened + 1)
+    else if c == 41 then (if opened - 1 < 0 then opened - 1 else destOpened rest (opened - 1))
+    else if isSpace c then opened
+    else destOpened rest opened
+termination_by l => l.length
+
+/-- parseLinkDestination (link.go:333-376) -/
 def parseLinkDestination (rd : BlockReader) : Except Panic (Option Bytes × BlockReader) := do
   let (_, rd) ← skipSpaces blockOps (rdFuel rd) 0 rd
   let ((line, _), rd) ← rd.peekLine
@@ -262,8 +278,11 @@ def parseLinkDestination (rd : BlockReader) : Except Panic (Option Bytes × Bloc
     | none => pure (none, rd)
   else
     let i := destPlain line 0 0
-    let rd ← rd.advance i
-    pure (if i != 0 then some (line.take i) else none, rd)
+    -- link.go:370 (repair ce3b6c4): an unescaped `(` still open when the scan stops: rejected, the reader is not advanced
+    if destOpened line 0 > 0 then pure (none, rd)
+    else
+      let rd ← rd.advance i
+      pure (if i != 0 then some (line.take i) else none, rd)
 
 def linkFindClosureOptions : FindClosureOptions := { codeSpan := false, nesting := false, newline := true, advance := true }
 
@@ -311,10 +330,11 @@ def parseLinkInline (st : St) : Except Panic (Option LinkInfo × St) := do
     match dest with
     | none => pure (none, { st with rd := rd })
     | some dest =>
-      let (_, rd) ← skipSpaces blockOps (rdFuel rd) 0 rd
+      let ((_, spaces, _), rd) ← skipSpaces blockOps (rdFuel rd) 0 rd
       if (← rd.peek) == 41 then
         let rd ← rd.advance 1
         finish rd dest none
+      else if spaces == 0 then pure (none, { st with rd := rd })   -- link.go:313 (repair 8c83fd9): a title needs white space in front
       else
         let (title, rd) ← parseLinkTitle rd
         match title with
@@ -339,8 +359,11 @@ def parseReferenceLink (env : Env) (st : St) (lseg : Segment) :
   let st := { st with rd := rd }
   if !found then return ((none, false), st)
   let maybeReference ← segsValue rd (segs.getD [])
+  -- link.go:274-281 (repair fb85ad2): only an EMPTY second pair of brackets is a collapsed reference; brackets with
+  -- only white space between them are no label at all (`return nil, false`: the caller tries a shortcut reference)
+  if !maybeReference.isEmpty && isBlank maybeReference then return ((none, false), st)
   let maybeReference ←
-    if isBlank maybeReference then rd.valueOp { start := lseg.stop, stop := orgpos.start - 1 }
+    if maybeReference.isEmpty then rd.valueOp { start := lseg.stop, stop := orgpos.start - 1 }
     else pure maybeReference
   if maybeReference.length > 999 then return ((none, true), st)
   match lookupRef env maybeReference with
